@@ -39,7 +39,7 @@ CHECKS = {
    "Ten corpus scenarios; the failure-free run is recorded, then re-run once per (call index, fault kind); stop faults void the rest of the invocation and rebuild all reconcilers with empty in-memory state; thorough adds 20k seeded fault pairs.",
    T+"process stop is emulated by voiding later calls of the invocation rather than killing goroutines.", "4/C11"),
  "C12": ("exploration", "runtime monitors: every write of every invocation must target an object of the EDS being reconciled; foreign objects never counted/adopted",
-   "Two or three ExtendedDaemonSets (same/different names and namespaces), unrelated pods and DaemonSets with overlapping labels, rollouts and canaries in all interleavings; ownership judged per write from the invocation's own reads.",
+   "Two or three ExtendedDaemonSets (same/different names and namespaces), unrelated pods and DaemonSets with overlapping labels, rollouts and canaries in all interleavings; ownership judged per write from the invocation's own reads; each ExtendedDaemonSet also has its own node override annotations and ExtendedDaemonsetSettings, and a created pod whose resources came from those of another ExtendedDaemonSet is a violation (foreign-object-influence).",
    T+"ownership = namespace + name label / owner reference as stated.", "4/C12"),
  "C13": ("exploration", "runtime monitors on replica-set creates/deletes and PodTemplate reconciles during edit-heavy histories",
    "Edit sequences over {A,B,C,+selector variants} incl. A-B-A and edits during canaries, all reconcile orders: no second replica set for a template while one exists, created RS faithful to spec.template with a consistent hash chain down to pods, never delete the active/up-to-date RS, delete only with zero counters as read, PodTemplate equals spec.template and carries the RS hash.",
